@@ -852,11 +852,35 @@ def rule_embed_sources(check, model, rules):
             oa = _origins(model, a)
             ok_outer = ('outer', 5) in oa and ('inner', 5) not in oa and not mentions(a, depth_p)
             binit = model.interp.obj_init.get(b, b)
-            inner_ok = ('inner', 5) in _origins(model, binit) and ('outer', 5) not in _origins(model, binit)
-            plus = any(s[0] == 'B' and s[1] == 'Add' and depth_p in (s[2], s[3]) for s in subterms(binit))
-            if ok_outer and inner_ok and plus:
-                check.holds(rules['arith'], site(None, dep[-1].node), 'outer depths kept, inner depths + depth, combined by merge_depths',
-                            key=key, guards=gtext)
+            # the increment: `<inner depth> + X`
+            incs = []
+            for s in subterms(binit):
+                if s[0] == 'B' and s[1] == 'Add':
+                    for v_, x_ in ((s[2], s[3]), (s[3], s[2])):
+                        if ('inner', 5) in _origins(model, v_) or (v_[0] in ('S', 'E') and not mentions(x_, v_)):
+                            if ('inner', 5) not in _origins(model, x_):
+                                incs.append(x_)
+            incs = [x_ for x_ in incs if x_ != K(1) or True]
+            inc = None
+            for x_ in incs:
+                if x_ == depth_p or mentions(x_, depth_p) or ('outer', 5) in _origins(model, x_):
+                    inc = x_
+            rest_outer = ('outer', 5) in _origins(model, binit) and (inc is None or ('outer', 5) not in _origins(model, inc))
+            inner_ok = ('inner', 5) in _origins(model, binit) and not rest_outer
+            plus = inc is not None
+            by_position_only = inc == depth_p
+            if ok_outer and inner_ok and plus and by_position_only:
+                # (D48) right only when the outer signature is a single callable: the inner one is one step further than the callable of the
+                # outer one that owns the star parameters it goes through, which sits deeper when the outer signature is itself composite
+                check.violation(rules['arith'], site(None, dep[-1].node), 'inner depths are increased by the position of the operand only: when the outer '
+                                'signature is itself composite (a result of embed/forwards, the signature of a partial object) the callable that '
+                                'forwards sits deeper than that, and the embedded callable is reported at its depth instead of one step further',
+                                key=key, guards=gtext, effect=show(binit)[:200],
+                                witness="embed(embed(p, q), r).sources['+depths'][r_func] must be 2; wrappers.wrapper_decorator: the wrapped function "
+                                        "must be deeper than the decorator that calls it")
+            elif ok_outer and inner_ok and plus:
+                check.holds(rules['arith'], site(None, dep[-1].node), 'outer depths kept, inner depths increased past the forwarding callable, combined '
+                            'by merge_depths', key=key, guards=gtext)
             elif ok_outer and inner_ok and not plus:
                 check.violation(rules['arith'], site(None, dep[-1].node), 'inner depths are not increased by the embedding depth', key=key,
                                 guards=gtext, effect=show(binit)[:200], witness="embed(a, b).sources['+depths'][b_func] must be 1")
